@@ -1,4 +1,7 @@
+pub mod c05;
+pub mod c09;
 pub mod c12;
+pub mod c13;
 
 use crate::core::{Prop, Tier};
 use crate::supervise::{Aggregate, SanitizerReport};
@@ -9,6 +12,9 @@ pub fn extra_lanes<P: Prop>(_tier: Tier, _seed: u64, _agg: &mut Aggregate) -> Ve
 }
 
 /// helper child processes used by individual properties
-pub fn child_main(_id: &str, _args: &[String]) -> i32 {
-    2
+pub fn child_main(id: &str, args: &[String]) -> i32 {
+    match id {
+        "C09" => c09::child(args.get(3).map(|s| s.as_str()).unwrap_or("")),
+        _ => 2,
+    }
 }
